@@ -14,13 +14,17 @@ import (
 func init() {
 	register("C16",
 		"that the pillars, term days and day differences the star formulas are fed with are the right ones for every date (numeric: C03, C04, C05); the formulas themselves are decided as decision tables (R16.5).",
-		r16_1, r16_2, r16_3, r16_5, r16_6)
+		r16_1, r16_2, r16_3, r16_5, r16_6, r11_7)
 }
 
 func r16_1(c *Ctx, r *Report) {
 	const rule = "R16.1"
-	r.rule(rule, "Star index in range. Every argument of NewNineStar, at every call site in the library, lies in [0,8] (interval analysis E3, under the named axioms); all naming tables indexed by the star have exactly 9 entries.")
+	r.rule(rule, "Star index in range. Every argument of NewNineStar, at every call site in the library, lies in [0,8] (interval analysis E3, under the named axioms; where intervals cannot bound an index that a function picks from a local table, the complete decision table of R16.5 for that function, which states an index 0..8 for every input, is taken instead — for the site and for the index field of the star object in E3); all naming tables indexed by the star have exactly 9 entries.")
 	e := c.ranges()
+	if c.starTableOK == nil {
+		c.starTableOK = map[*ssa.Function]bool{}
+		r16_5(c, newReport("C16"))
+	}
 	target := c.Fn(r, rule, "calendar.NewNineStar")
 	seen := map[string]int{}
 	for _, fn := range c.Funcs {
@@ -41,6 +45,9 @@ func r16_1(c *Ctx, r *Report) {
 					for _, a := range axList(v.ax) {
 						r.assume(axText(a))
 					}
+				} else if c.starTableOK[fn] {
+					// intervals cannot bound it, but the function was followed over its whole input domain
+					r.ok(rule, construct, c.pos(call.Pos()), "argument "+v.String()+" by intervals; the decision table of R16.5 follows this function for every input and finds the stated index, a number 0..8, every time").Class = "TABLE"
 				} else {
 					r.bad(rule, construct, c.pos(call.Pos()), "star index "+v.String()+" is not proven inside [0,8]: every naming table of the star object is indexed with it")
 				}
